@@ -13,6 +13,7 @@ import (
 
 	"cuelabs.dev/go/oci/ociregistry"
 	"cuelabs.dev/go/oci/ociregistry/ocimem"
+	"cuelabs.dev/go/oci/ociregistry/ociunify"
 
 	"verifsim/core"
 	"verifsim/reg"
@@ -49,6 +50,10 @@ func init() {
 			register(&core.Scenario{Name: "c04-faults-" + kind, Property: "C04", Weight: w, Bubble: bubble, LeakIsViolation: bubble, Run: func(env *core.Env) { c04(env, kind, true) }})
 		}
 	}
+	// one member of a unified registry loses a write: the caller resumes (or, when the
+	// unifier refuses because the members disagree, starts again) and must end up with
+	// the exact content on both members
+	register(&core.Scenario{Name: "c04-unify-member-loses-write", Property: "C04", Weight: 2, Bubble: true, LeakIsViolation: true, Run: func(env *core.Env) { c04(env, "unify-memberfault", false) }})
 }
 
 // rawUploadID peels the proxy layers off an upload ID until the backend's own id remains.
@@ -84,7 +89,10 @@ type c04run struct {
 	content []byte
 	w       ociregistry.BlobWriter
 	id      string
-	faults  int // faults still allowed
+	memberFault bool // a unify member failed a write: the members may disagree on the upload size
+	badWriter   bool // the current writer contains a member writer whose writes fail
+	hint2       int
+	faults      int // faults still allowed
 	fired   bool
 	direct  bool
 	calls   int // client calls since the last fault (liveness)
@@ -124,14 +132,37 @@ func (r *c04run) recoverSession(why string) int64 {
 			r.env.Probe("c04:one-byte-steered")
 		}
 		r.fired = false
+		r.badWriter = false // the previous writer is abandoned; the plan may mark the new one
 		w, err := r.st.Reg.PushBlobChunkedResume(r.ctx, r.repo, r.id, off, r.hint)
 		r.env.Op("resume-1")
 		r.env.Logf("recover(%s): registry holds %d, resume(offset %d) -> %v", why, t, off, err)
 		if err != nil {
+			if r.memberFault {
+				// the unifier refuses to resume because its members disagree on the size:
+				// the documented way out is to start the upload again
+				r.memberFault = false
+				r.badWriter = false
+				r.env.Probe("c04:restart-after-member-divergence")
+				nw, err := r.st.Reg.PushBlobChunked(r.ctx, r.repo, r.hint)
+				if err != nil {
+					r.env.Failf("C04/start/unexpected-failure", "PushBlobChunked (restart) failed: %v", err)
+				}
+				r.w, r.id = nw, nw.ID()
+				return 0
+			}
 			if !r.fired {
 				r.env.Failf("C04/resume/unexpected-failure", "PushBlobChunkedResume(offset %d) failed without any injected fault: %v (registry holds %d bytes)", off, err, t)
 			}
 			continue
+		}
+		if r.memberFault {
+			// the resume was accepted although a member had lost a write: whatever size it
+			// reports, continuing from there must lead to a successful commit (checked by
+			// the caller: from now on no error is excused)
+			r.memberFault = false
+			r.fired = false
+			r.w = w
+			return w.Size()
 		}
 		if w.Size() != t {
 			r.env.Failf("C04/resume/wrong-size", "resumed writer reports size %d but the registry holds %d bytes (offset asked: %d)", w.Size(), t, off)
@@ -179,7 +210,29 @@ func c04(env *core.Env, kind string, faulty bool) {
 		}
 		return f
 	}
-	r.st = buildStack(env, o)
+	if kind == "unify-memberfault" {
+		failWriter := c.Range("memberfault.writer", 0, 3) // which writer handed out by member 1 fails its writes
+		nw := 0
+		plan := &reg.FaultPlan{WriterFaults: func(call *reg.Call) (bool, bool) {
+			nw++
+			if nw-1 == failWriter {
+				r.badWriter = true
+				env.Fault("unify-member-write-fails")
+				return true, false
+			}
+			return false, false
+		}}
+		m0, m1 := newMem(false), newMem(false)
+		pol := ociunify.ReadSequential
+		if c.Bool("concurrent", 1, 2) {
+			pol = ociunify.ReadConcurrent
+		}
+		r.st = &stack{Mem: m0, Mem1: m1, Tracker: reg.NewTracker(), Desc: kind,
+			Reg: ociunify.New(m0, reg.Wrap(m1, reg.NewTracker(), plan), &ociunify.Options{ReadPolicy: pol})}
+		r.direct = true
+	} else {
+		r.st = buildStack(env, o)
+	}
 	for _, tr := range r.st.Transports {
 		tr.Record = true
 	}
@@ -232,8 +285,11 @@ func c04(env *core.Env, kind string, faulty bool) {
 
 	failedHere := func(what string, err error) {
 		// An error is legitimate only if a fault was injected during this call.
-		if !r.fired {
+		if !r.fired && !r.badWriter {
 			env.Failf("C04/"+what+"/unexpected-failure", "%s failed although no fault was injected: %v", what, err)
+		}
+		if r.badWriter {
+			r.memberFault = true // one member has refused data the other accepted
 		}
 		env.Op(what + ":error-under-fault")
 	}
@@ -254,6 +310,9 @@ func c04(env *core.Env, kind string, faulty bool) {
 		env.Logf("write [%d,%d) -> %d %v", pos, end, n, err)
 		if err != nil {
 			failedHere("Write", err)
+			if got := r.w.Size(); got != pos {
+				env.Failf("C04/Size/counts-failed-write", "Write of [%d,%d) failed (%v) but the writer now reports Size()=%d; %d bytes had been written successfully", pos, end, err, got, pos)
+			}
 			pos = r.recoverSession("write failed")
 			continue
 		}
@@ -363,7 +422,7 @@ func c04(env *core.Env, kind string, faulty bool) {
 	}
 
 	// wrong digest on a separate session
-	if c.Bool("wrongdigest", 1, 3) {
+	if kind != "unify-memberfault" && c.Bool("wrongdigest", 1, 3) {
 		saved := r.faults
 		r.faults = 0
 		w2, err := r.st.Reg.PushBlobChunked(r.ctx, r.repo, r.hint)
